@@ -562,7 +562,7 @@ func genFaults(c *ctx, emit func(string)) {
 			case x < 3:
 				g.ops = append(g.ops, fmt.Sprintf("! %x", r.Intn(5)))
 			case x < 5: // a counted fault together with fault modes
-				g.ops = append(g.ops, fmt.Sprintf("? %x", 1+r.Intn(7)), fmt.Sprintf("! %x", r.Intn(6)))
+				g.ops = append(g.ops, fmt.Sprintf("? %x", 1+r.Intn(15)), fmt.Sprintf("! %x", r.Intn(6)))
 				armed = true
 			case x < 6: // only the modes: every deletion of the call fails
 				g.ops = append(g.ops, "? 1", never)
@@ -585,7 +585,7 @@ func genFaults(c *ctx, emit func(string)) {
 				g.ops = append(g.ops, "A")
 			}
 		}
-		switch r.Intn(15) {
+		switch r.Intn(21) {
 		case 0: // fault inside a suffix truncation, exactly one more batch, reopen
 			if !g.empty() && g.last > g.first {
 				g.ops = append(g.ops, fmt.Sprintf("! %x", r.Intn(2)), fmt.Sprintf("D %x %x", g.last, g.last+uint64(r.Intn(2))))
@@ -705,6 +705,53 @@ func genFaults(c *ctx, emit func(string)) {
 				g.ops = append(g.ops, "X")
 			}
 			g.ops = append(g.ops, "Z", fmt.Sprintf("! %x", r.Intn(3)), "O", "T", "A")
+		case 14, 15: // finding F4: a tail truncation that drops the (empty) tail segment as a whole,
+			// its metadata commit fails but reaches the disk; the appends that follow must be
+			// refused (they would go to a segment the persisted state no longer lists)
+			g.ops = append(g.ops, "~", "W")
+			if g.empty() {
+				g.ops = append(g.ops, bigLog(g), "W")
+				g.last++
+				g.first = g.last
+			}
+			g.ops = append(g.ops, bigLog(g), "W", "Y", "? 8", fmt.Sprintf("! %x", r.Intn(2)))
+			g.last++
+			k := uint64(1 + r.Intn(2))
+			if k > g.last-g.first+1 {
+				k = 1
+			}
+			g.ops = append(g.ops, fmt.Sprintf("D %x %x", g.last-k+1, g.last+uint64(r.Intn(2))), "~", "T", "A")
+			save := *g
+			g.store()
+			g.store()
+			g.first, g.last = save.first, save.last
+			g.ops = append(g.ops, "A")
+		case 16: // the commit of a rotation fails and lands
+			g.ops = append(g.ops, "~", "W", "? 8", "! 2", bigLog(g), "W", "~", "T", "A")
+			g.store()
+		case 17: // the commit of a head truncation fails and lands
+			g.ops = append(g.ops, "~")
+			for j := 0; j < 2; j++ {
+				g.ops = append(g.ops, bigLog(g), "W")
+				g.last++
+				if g.first == 0 {
+					g.first = g.last
+				}
+			}
+			g.ops = append(g.ops, "? 8", "! 0", fmt.Sprintf("D 0 %x", g.first+uint64(r.Intn(int(g.last-g.first)+1))), "~", "T", "A")
+			g.store()
+		case 18: // the commit of the reset of the empty first segment fails and lands
+			g.ops = append(g.ops, "~", fmt.Sprintf("D 0 %x", g.last+5), "? 8", "! 0")
+			g.first, g.last = 0, 0
+			save := *g
+			g.store()
+			g.first, g.last = save.first, save.last
+			g.ops = append(g.ops, "~", "A")
+			g.store()
+		case 19: // a stable write fails and lands: the new value is what readers see
+			k := stableKeys[r.Intn(3)]
+			v := genU64(r)
+			g.ops = append(g.ops, "~", fmt.Sprintf("U %s %x", k, v+1), "? 8", "! 0", fmt.Sprintf("U %s %x", k, v), "~", "u "+k, fmt.Sprintf("U %s %x", k, v+2), "u "+k)
 		}
 		g.ops = append(g.ops, "A", "T", "X", "Z", "O", "A", "Y", "P")
 		// after reopen the WAL must be usable again
